@@ -367,12 +367,12 @@ func gen(r *vu.Rng, i int) []string {
 	// (a generous limit is usually 2^16: the Framer allocates Length bytes per frame, and 16 MiB
 	// buffers for garbage length fields only cost time)
 	maxRead := uint32(1 << 16)
-	if r.Chance(1, 12) {
+	if r.Chance(1, 40) {
 		maxRead = 1<<24 - 1
 	}
 	switch r.Intn(8) {
 	case 0:
-		if r.Chance(1, 3) {
+		if r.Chance(1, 6) {
 			maxRead = maxReadPool[r.Intn(len(maxReadPool))]
 		} else {
 			maxRead = maxReadPool[r.Intn(12)]
@@ -380,11 +380,14 @@ func gen(r *vu.Rng, i int) []string {
 	case 1, 2:
 		var big uint32
 		for _, rf := range splitFrames(stream) {
-			if rf.fh.Length > big && rf.fh.Length < 1<<20 {
+			if rf.fh.Length > big && rf.fh.Length < 1<<16 {
 				big = rf.fh.Length
 			}
 		}
-		maxRead = big + uint32(r.Intn(3)) - 1 // big-1, big, big+1 (wraps to 2^32-1 for big = 0)
+		maxRead = big + uint32(r.Intn(3)) // big, big+1, big+2 ...
+		if maxRead > 0 {
+			maxRead-- // ... shifted to big-1, big, big+1 (0 stays 0)
+		}
 	case 3:
 		maxRead = uint32(r.Intn(64))
 	}
